@@ -178,3 +178,12 @@ package writecache
 //@ func (*cache).delete
 //@   property C09
 //@   ensures [answer_is_the_file_trees] resultOf(err, "(*fstree.FSTree).Delete")
+
+// ---- C43 / C17 (synchronous flush: Flush(), and SetMode towards a mode in which the cache
+// can no longer serve reads): every address the file tree lists is handed to flushSingle
+// and the answer for that address is flushSingle's - no address is skipped on other grounds
+// (an address marked in-flight by the background scheduler may never reach its worker once
+// the mode has changed).
+//@ func (*cache).flush$1
+//@   property C43 C17
+//@   ensures [every_listed_address_is_flushed_here] resultOf(err, "(*writecache.cache).flushSingle")
